@@ -96,27 +96,25 @@ theorem rwStep_colOut (g : LGraph) (rd wr : List Node) (hrd : ∀ n ∈ rd, n.is
 
 /-! ### RENAME (well‑formedness only) -/
 
-theorem renameOne_wf (g g' : LGraph) (p : Node × Node) (hr : renameOne g p = some g') (h : WF g) : WF g' := by
-  unfold renameOne at hr
-  simp only at hr
-  cases hre : (g.relabel p.1 p.2).removeEdge? p.2 p.2 with
-  | none => rw [hre] at hr; cases hr
-  | some g2 =>
-    rw [hre] at hr
-    simp only [Option.some.injEq] at hr
-    have h2 : WF g2 := wf_removeEdge _ _ _ _ hre (wf_relabel g p.1 p.2 none h)
-    rw [← hr]
-    split
-    · exact wf_removeNode _ _ h2
-    · exact h2
+theorem wf_removeEdges (g : LGraph) (ps : List (Node × Node)) (h : WF g) : WF (removeEdges g ps) := by
+  intro e he
+  exact h e (List.mem_filter.mp he).1
 
-theorem renameStep_wf : ∀ (ps : List (Node × Node)) (g g' : LGraph), renameStep g ps = some g' → WF g → WF g'
-  | [], g, g', hr, h => by simp only [renameStep, Option.some.injEq] at hr; rw [← hr]; exact h
-  | p :: r, g, g', hr, h => by
-    simp only [renameStep] at hr
-    cases h1 : renameOne g p with
-    | none => rw [h1] at hr; cases hr
-    | some g1 => rw [h1] at hr; exact renameStep_wf r g1 g' hr (renameOne_wf g g1 p h1 h)
+theorem renameOne_wf (g : LGraph) (p : Node × Node) (h : WF g) : WF (renameOne g p) := by
+  unfold renameOne
+  simp only
+  split
+  · exact wf_removeNode _ _ (wf_relabel g p.1 p.2 none h)
+  · exact wf_relabel g p.1 p.2 none h
+
+theorem renameStep_wf (ps : List (Node × Node)) (g : LGraph) (h : WF g) : WF (renameStep g ps) := by
+  unfold renameStep
+  have gen : ∀ (l : List (Node × Node)) (G : LGraph), WF G → WF (l.foldl renameOne G) := by
+    intro l
+    induction l with
+    | nil => intro G hG; exact hG
+    | cons p r ih => intro G hG; exact ih _ (renameOne_wf G p hG)
+  exact gen ps _ (wf_removeEdges g ps h)
 
 /-! ### the fold over statement holders -/
 
@@ -128,9 +126,7 @@ theorem foldStep_wf (ord : List (Node × Node) → List (Node × Node)) (g h g' 
   split at hr
   · rw [← Except.ok.inj hr]; exact dropStep_preserves WF stable_wf _ _ hc
   · split at hr
-    · cases hrs : renameStep (g.compose h) (ord (stmtRename h)) with
-      | none => rw [hrs] at hr; cases hr
-      | some g1 => rw [hrs] at hr; rw [← Except.ok.inj hr]; exact renameStep_wf _ _ _ hrs hc
+    · rw [← Except.ok.inj hr]; exact renameStep_wf _ _ hc
     · rw [← Except.ok.inj hr]; exact rwStep_wf _ _ _ hc
 
 theorem foldStep_colOut (ord : List (Node × Node) → List (Node × Node)) (g h g' : LGraph) (hg : ColOut g) (hh : ColOut h)
